@@ -23,11 +23,6 @@ open Unyt PCheck Generated Ref.C15 C15Real
 
 /-! ### defining relations -/
 
-/-- every defining relation of the reference (ħ = h/2π, ε₀μ₀c² = 1, μ₀ = 4π·10⁻⁷, σ, a, R_∞,
-    the six Planck units, qe = −qp, Ry = h c R_∞) has equal normal forms over the base
-    constants of the regenerated source -/
-theorem defining_relations_normal_forms : relationsOk = true := by decide +kernel
-
 /-- … hence holds over ℝ for *every* positive assignment of the base constants: the source
     defines these constants by the relation, not by a number -/
 theorem defining_relations (ρ : String → ℝ) (hρ : ∀ s, 0 < ρ s) :
@@ -41,16 +36,8 @@ theorem defining_relations (ρ : String → ℝ) (hρ : ∀ s, 0 < ρ s) :
   simp only [Bool.and_eq_true] at h2
   exact sameNormalForm_sound ρ hρ _ _ h2.2
 
-/-- the hypothesis is met by the literals of the source: all base constants are positive -/
-theorem base_constants_positive : basePositive = true := by decide +kernel
-
 example : ∃ ρ : String → ℝ, ∀ s, 0 < ρ s := ⟨fun _ => 1, fun _ => one_pos⟩
 example : relations.length ≥ 14 ∧ (baseConstants ratioDefs).length > 50 := by decide +kernel
-
-/-- relations between quantities the source fixes by independent literals (σ_T against
-    (8π/3)·r_e², the eV against e): `lhs/rhs = k·πⁿ` is within the class tolerance of 1 at both
-    ends of a 20-digit rational enclosure of π, at the exact decimals of the source -/
-theorem independent_literals_agree : numRelationsOk = true := by decide +kernel
 
 /-- … and over ℝ, at the source's literals and the true π: `|lhs/rhs − 1|` is within the class -/
 theorem independent_literals_agree_real :
